@@ -482,24 +482,40 @@ Proof.
     apply Rltb_true in E1, E2. rewrite min_pct_k_R in E1, E2.
     split; [lra|]. split; [lra|]. split; [lra|]. split; [reflexivity|]. split; [reflexivity|].
     split; [intros _; left; split; reflexivity | intros; lra].
-  - clear Emin. cbn. unfold n_gtb. cbn. unfold Rltb.
+  - clear Emin. cbn. unfold n_gtb. cbn. unfold Rltb, Rleb.
     assert (Hw : 0 <= cbp - hbp) by lra.
+    destruct (Rle_dec hbp cbp) as [_|Hno]; [|lra]. cbn [andb].
     destruct (Rlt_dec 1 (ph + pc)) as [Hs|Hs]; cbn [fst snd].
     + assert (Hsp : 0 < ph + pc) by lra.
+      assert (Q1 : 0 <= ph / (ph + pc)) by (apply Rmult_le_pos; [lra | left; apply Rinv_0_lt_compat; lra]).
+      assert (Q2 : 0 <= pc / (ph + pc)) by (apply Rmult_le_pos; [lra | left; apply Rinv_0_lt_compat; lra]).
+      assert (Qs : ph / (ph + pc) * (cbp - hbp) + pc / (ph + pc) * (cbp - hbp) = cbp - hbp) by (field; lra).
       exists (ph / (ph + pc) * (cbp - hbp)), (pc / (ph + pc) * (cbp - hbp)).
-      split; [apply tup4_eq; field; lra|].
-      assert (0 <= ph / (ph + pc)) by (apply Rmult_le_pos; [lra | left; apply Rinv_0_lt_compat; lra]).
-      assert (0 <= pc / (ph + pc)) by (apply Rmult_le_pos; [lra | left; apply Rinv_0_lt_compat; lra]).
+      split.
+      { match goal with |- context [Rlt_dec ?a ?b] =>
+          assert (Ea : a = cbp - pc / (ph + pc) * (cbp - hbp)) by (field; lra);
+          assert (Eb : b = hbp + ph / (ph + pc) * (cbp - hbp)) by (field; lra);
+          destruct (Rlt_dec a b) as [Hc|Hc]; [exfalso; rewrite Ea, Eb in Hc; lra|]
+        end.
+        apply tup4_eq; field; lra. }
       split; [apply Rmult_le_pos; lra|]. split; [apply Rmult_le_pos; lra|].
-      split. { right. field. lra. }
+      split. { right. exact Qs. }
       split. { intros ->. unfold Rdiv. ring. }
       split. { intros ->. unfold Rdiv. ring. }
       split; [intros; lra | intros _; split; reflexivity].
-    + exists (ph * (cbp - hbp)), (pc * (cbp - hbp)).
-      split; [apply tup4_eq; field; lra|].
+    + assert (Qs : ph * (cbp - hbp) + pc * (cbp - hbp) <= cbp - hbp).
+      { replace (ph * (cbp - hbp) + pc * (cbp - hbp)) with ((ph + pc) * (cbp - hbp)) by ring.
+        rewrite <- (Rmult_1_l (cbp - hbp)) at 2. apply Rmult_le_compat_r; lra. }
+      exists (ph * (cbp - hbp)), (pc * (cbp - hbp)).
+      split.
+      { match goal with |- context [Rlt_dec ?a ?b] =>
+          assert (Ea : a = cbp - pc * (cbp - hbp)) by (field; lra);
+          assert (Eb : b = hbp + ph * (cbp - hbp)) by (field; lra);
+          destruct (Rlt_dec a b) as [Hc|Hc]; [exfalso; rewrite Ea, Eb in Hc; lra|]
+        end.
+        apply tup4_eq; field; lra. }
       split; [apply Rmult_le_pos; lra|]. split; [apply Rmult_le_pos; lra|].
-      split. { replace (ph * (cbp - hbp) + pc * (cbp - hbp)) with ((ph + pc) * (cbp - hbp)) by ring.
-               rewrite <- (Rmult_1_l (cbp - hbp)) at 2. apply Rmult_le_compat_r; lra. }
+      split. { exact Qs. }
       split. { intros ->. ring. }
       split. { intros ->. ring. }
       split; [intros _; right; split; reflexivity | intros; lra].
